@@ -347,6 +347,11 @@ def gen_call(rng, cid, nproc, tier, api=None):
     n = rng.choice([0, 1, 2, 3, 5, 7, 8, 12, 16, 17, 25, 33, 40, rng.randrange(0, maxn + 1), maxn])
     c = {'cid': cid, 'api': api, 'nproc': nproc, 'iseed': rng.randrange(10 ** 6),
          'types': rng.choice(H.TYPES), 'callable_obj': rng.random() < 0.25}
+    if c['types'] == 'big':
+        # values of 70-300 KB are there for what happens at the pipe's capacity, not
+        # for volume: 400 of them in one chunk is a 70 MB task message, and the
+        # "no worker logged anything for 15 s" rule would call its transfer a hang
+        n = min(n, 40)
     if b == 'apply':
         c['n'] = rng.choice([0, 1, 2, 3])
         c['kw'] = rng.choice([0, 0, 1, 3])
